@@ -96,6 +96,15 @@ let stateless (t : string array) : string option =
             | Some l -> "ok " ^ label_out l
             | None -> "err")
   | "LABELPRINT" -> Some (text_out (label_print (label_in t.(1))))
+  | "LABELRT" ->
+      Some (match label_from_str (text_arg t.(1)) with
+            | Some l -> Printf.sprintf "ok %s %s" (label_out l) (text_out (label_print l))
+            | None -> "err")
+  | "LABELRTL" ->
+      let txt = label_print (label_in t.(1)) in
+      Some (match label_from_str txt with
+            | Some l -> Printf.sprintf "%s ok %s" (text_out txt) (label_out l)
+            | None -> Printf.sprintf "%s err" (text_out txt))
   | _ -> None
 
 let lim = n_of_int 1048576
